@@ -22,6 +22,8 @@ type ruleCfg struct {
 	NoSal   bool   `json:"nosal,omitempty"`
 	Fail    bool   `json:"fail,omitempty"`
 	SetsTag bool   `json:"tag,omitempty"`
+	// Fault: a faulty construct executed after the rule's end event; the rule must fail with an error
+	Fault string `json:"fault,omitempty"`
 }
 
 type modelCfg struct {
@@ -80,6 +82,7 @@ func (c modelCfg) specs() []gx.RuleSpec {
 		if r.SetsTag {
 			sp.Extra += "\n  stag.StopTag = true"
 		}
+		sp.After = r.Fault
 		rs = append(rs, sp)
 	}
 	return rs
@@ -88,7 +91,7 @@ func (c modelCfg) specs() []gx.RuleSpec {
 func (c modelCfg) refs() []ref.RuleRef {
 	var rs []ref.RuleRef
 	for i, r := range c.Rules {
-		rs = append(rs, ref.RuleRef{ID: int64(i + 1), Name: r.Name, Sal: r.Sal, Fail: r.Fail, SetsTag: r.SetsTag})
+		rs = append(rs, ref.RuleRef{ID: int64(i + 1), Name: r.Name, Sal: r.Sal, Fail: r.Fail || r.Fault != "", SetsTag: r.SetsTag})
 	}
 	return rs
 }
@@ -147,7 +150,13 @@ func modelScenario(cfg modelCfg) *hx.Scenario {
 	}
 	call := func(g *engine.Gengine, l *gx.Log, cnt *Counters) (error, interface{}) {
 		stag := &engine.Stag{}
-		rb := gx.Fresh(src, l, map[string]interface{}{"cnt": cnt, "stag": stag})
+		inj := map[string]interface{}{"cnt": cnt, "stag": stag}
+		if cfg.Prop == "C09" {
+			for k, v := range faultData() {
+				inj[k] = v
+			}
+		}
+		rb := gx.Fresh(src, l, inj)
 		return gx.CallGuarded(func() error {
 			return m.Call(g, rb, gx.Params{B: cfg.B, N: cfg.N, M: cfg.M, Names: cfg.Names, Stag: stag})
 		})
